@@ -23,6 +23,8 @@ import Mathlib.Tactic.FieldSimp
 import Mathlib.Tactic.Push
 import RelicVerif.Model.Fpx
 import RelicVerif.Lemmas.Tower
+import RelicVerif.Lemmas.MulAlg
+import Mathlib.Algebra.Group.TypeTags.Basic
 
 namespace Relic.Lemmas.Fpx
 open Relic.Model.Fpx Relic.Model.Formula
@@ -1035,5 +1037,109 @@ theorem expBin_eq (h : OpsHom o ev half) (a : E) (bits : List Bool) :
   exact expBin_aux h a bits a 1 (by simp)
 
 end partD
+
+/-! ### simultaneous inversion (Montgomery's trick, fpN_inv_sim) over a field -/
+
+section invsim
+variable {F : Type} [Field F] [DecidableEq F] (hf : F)
+
+@[simp] theorem fieldOps_mul (a b : F) : (fieldOps hf).mul a b = a * b := rfl
+@[simp] theorem fieldOps_inv (a : F) : (fieldOps hf).inv a = a⁻¹ := rfl
+
+/-- reversed list of the running products of a reversed operand list: for rs = [a_k, …, a_0] the list
+    [a_0⋯a_k, a_0⋯a_{k-1}, …, a_0] -/
+def revProds : List F → List F
+  | [] => []
+  | a :: rest => (a * rest.prod) :: revProds rest
+
+theorem invSimPrefix_append : ∀ (xs : List F) (acc z : F),
+    invSimPrefix (fieldOps hf) acc (xs ++ [z]) = invSimPrefix (fieldOps hf) acc xs ++ [acc * xs.prod * z]
+  | [], acc, z => by simp [invSimPrefix]
+  | x :: xs, acc, z => by
+    simp only [List.cons_append, invSimPrefix, fieldOps_mul, invSimPrefix_append xs (acc * x) z, List.prod_cons, mul_assoc]
+
+theorem invSimPrefix_reverse (x : F) (xs : List F) :
+    (x :: invSimPrefix (fieldOps hf) x xs).reverse = revProds (x :: xs).reverse := by
+  induction xs using List.reverseRecOn with
+  | nil => simp [invSimPrefix, revProds]
+  | append_singleton xs z ih =>
+    have e1 : (x :: invSimPrefix (fieldOps hf) x (xs ++ [z])).reverse =
+        (x * xs.prod * z) :: (x :: invSimPrefix (fieldOps hf) x xs).reverse := by
+      rw [invSimPrefix_append]
+      simp
+    have e2 : (x :: (xs ++ [z])).reverse = z :: (x :: xs).reverse := by simp
+    rw [e1, e2, ih]
+    simp only [revProds, List.prod_reverse, List.prod_cons]
+    congr 1
+    ring
+
+theorem invSimBack_spec : ∀ (rs : List F), rs ≠ [] → (∀ a ∈ rs, a ≠ 0) →
+    invSimBack (fieldOps hf) (revProds rs) rs (rs.prod)⁻¹ = (rs.map (·⁻¹)).reverse
+  | [], h, _ => absurd rfl h
+  | [a], _, _ => by simp [revProds, invSimBack]
+  | a :: b :: rest, _, hnz => by
+    have ha : a ≠ 0 := hnz a (by simp)
+    have hq : (b :: rest).prod ≠ 0 := by
+      apply List.prod_ne_zero
+      intro h0
+      exact hnz 0 (List.mem_cons_of_mem _ h0) rfl
+    have ih := invSimBack_spec (b :: rest) (by simp) (fun x hx => hnz x (List.mem_cons_of_mem _ hx))
+    have e1 : ((a :: b :: rest).prod)⁻¹ * a = ((b :: rest).prod)⁻¹ := by
+      rw [List.prod_cons, mul_inv, mul_comm a⁻¹, mul_assoc, inv_mul_cancel₀ ha, mul_one]
+    have e2 : (b :: rest).prod * ((a :: b :: rest).prod)⁻¹ = a⁻¹ := by
+      rw [List.prod_cons (a := a), mul_inv, mul_comm a⁻¹, ← mul_assoc, mul_inv_cancel₀ hq, one_mul]
+    have hr : revProds (a :: b :: rest) = (a * (b :: rest).prod) :: (b :: rest).prod :: revProds rest := by
+      simp [revProds]
+    have hr' : revProds (b :: rest) = (b :: rest).prod :: revProds rest := by simp [revProds]
+    rw [hr, invSimBack, fieldOps_mul, fieldOps_mul, e1, e2, ← hr', ih]
+    simp
+
+/-- **fpN_inv_sim returns the list of inverses** whenever no operand is zero -/
+theorem invSim_spec (as : List F) (hnz : ∀ a ∈ as, a ≠ 0) : invSim (fieldOps hf) as = as.map (·⁻¹) := by
+  cases as with
+  | nil => rfl
+  | cons x xs =>
+    have hrev := invSimPrefix_reverse hf x xs
+    have hlast : (x :: invSimPrefix (fieldOps hf) x xs).getLastD x = (x :: xs).prod := by
+      have h1 : (x :: invSimPrefix (fieldOps hf) x xs).getLastD x = ((x :: invSimPrefix (fieldOps hf) x xs).reverse).headD x := by
+        rw [List.getLastD_eq_getLast?, List.headD_eq_head?_getD, List.head?_reverse]
+      rw [h1, hrev]
+      cases hr : (x :: xs).reverse with
+      | nil => simp at hr
+      | cons a rest =>
+        have : (x :: xs).prod = ((x :: xs).reverse).prod := by rw [List.prod_reverse]
+        rw [this, hr]
+        simp [revProds]
+    have hgoal : invSim (fieldOps hf) (x :: xs) =
+        invSimBack (fieldOps hf) (x :: invSimPrefix (fieldOps hf) x xs).reverse (x :: xs).reverse
+          ((fieldOps hf).inv ((x :: invSimPrefix (fieldOps hf) x xs).getLastD x)) := rfl
+    rw [hgoal, hlast, hrev, fieldOps_inv]
+    have hp : (x :: xs).prod = ((x :: xs).reverse).prod := by rw [List.prod_reverse]
+    rw [hp, invSimBack_spec hf (x :: xs).reverse (by simp) (fun a ha => hnz a (List.mem_reverse.mp ha))]
+    simp
+
+end invsim
+
+/-! ### the signed-digit loop of the cyclotomic exponentiations (fpN_exp_cyc, NAF branch)
+
+The loop of fp12_exp_cyc (and fp2/fp8/fp16/fp18/fp24/fp48) — r ← r² (cyclotomic squaring), then r ← r·t[d/2] or
+r ← r·conj(t[−d/2]) for the w-NAF digit d, from the top digit down, with t[i] = a^(2i+1) — is the loop `mulSigned` of
+Model/MulAlg.lean (already proved for the curve multiplications) read multiplicatively: in any commutative group (the
+cyclotomic subgroup, where conjugation is inversion and the special squaring is the squaring) it returns a^k,
+k = Σ d_i 2^i the integer the recoding denotes (= the exponent, by the recoding theorem recNaf_spec of C09). -/
+
+section expcyc
+open Relic.Model.MulAlg Relic.Model
+
+variable {H : Type} [CommGroup H]
+
+theorem expCycNaf_spec (a : H) (tab : List H) (htab : ∀ i, i < tab.length → tab.getD i 1 = a ^ (2 * (i : ℤ) + 1))
+    (ds : List Int) (hd : ∀ d ∈ ds, d = 0 ∨ (d % 2 ≠ 0 ∧ d.natAbs < 2 * tab.length)) :
+    mulSigned (⟨1, (· * ·), (·⁻¹)⟩ : MulAlg.Ops H) tab 1 ds = a ^ (Rec.eval 1 ds) := by
+  have h := mulSigned_spec (G := Additive H) (Additive.ofMul a) tab
+    (by intro i hi; exact htab i hi) ds hd
+  exact h
+
+end expcyc
 
 end Relic.Lemmas.Fpx
